@@ -24,7 +24,13 @@ Same(V) == UNCHANGED V
 
 TReset == /\ Step("Reset") /\ main' = E.main /\ fall' = ToSet(E.fall) /\ backoff' = E.backoff
           /\ health' = [u \in ToSet(E.main) \cup ToSet(E.fall) |-> "up"]
-          /\ fail' = [u \in ToSet(E.main) |-> -1] /\ active' = ToSet(E.main) /\ pc' = 0 /\ acc' = {}
+          \* E.init = "alldown": the constructor ran the start-up health check and every main
+          \* upstream failed it; without fallbacks that check must not demote anybody
+          /\ LET demoted == E.init = "alldown" /\ Len(E.fall) > 0 IN
+             /\ fail' = [u \in ToSet(E.main) |-> IF demoted THEN 0 ELSE -1]
+             /\ active' = IF demoted THEN {} ELSE ToSet(E.main)
+             /\ ToSet(E.active) = (IF demoted THEN {} ELSE ToSet(E.main))
+          /\ pc' = 0 /\ acc' = {}
 TSetHealth == /\ Step("SetHealth") /\ health' = [health EXCEPT ![E.u] = E.h]
               /\ Same(<<main, fall, backoff, fail, active, pc, acc>>)
 TTick == /\ Step("Tick")
@@ -68,9 +74,24 @@ TQuery == /\ Step("Query")
              /\ (E.by # "error" => E.rcode = (IF health[E.by] = "servfail" THEN 2 ELSE 0))
           /\ Same(<<main, fall, backoff, health, fail, active, pc, acc>>)
 
+\* Reply validation of the plain upstream client: E.udp / E.tcp are the reply
+\* classes the fake upstream serves on each transport, E.got the class of what
+\* Exchange handed to its caller ("error" when it reported an error).
+\* "an upstream reply is accepted only if its ID, question name and type match"
+ValidReply(c) == c \in {"valid", "validtc", "casename"}
+TExchange == /\ Step("Exchange")
+             /\ (E.got # "error" => ValidReply(E.got))                        \* nothing else is ever accepted
+             /\ (E.got # "error" => E.got \in {E.udp, E.tcp})                  \* and it is a reply the upstream sent
+             \* a complete valid reply on the first transport tried is accepted
+             /\ (E.net \in {"udp", ""} /\ E.udp \in {"valid", "casename"} => E.got = E.udp)
+             /\ (E.net = "tcp" /\ E.tcp \in {"valid", "casename", "validtc"} => E.got = E.tcp)
+             \* a truncated UDP reply is retried over TCP when the network is not pinned to UDP
+             /\ (E.net = "" /\ E.udp = "validtc" /\ E.tcp \in {"valid", "casename", "validtc"} => E.got = E.tcp)
+             /\ Same(<<main, fall, backoff, health, fail, active, pc, acc>>)
+
 TraceInit == /\ l = 1 /\ main = <<>> /\ fall = {} /\ backoff = 1 /\ health = <<>> /\ fail = <<>>
              /\ active = {} /\ pc = 0 /\ acc = {}
-TraceNext == TReset \/ TSetHealth \/ TTick \/ TRefreshStart \/ TProbe \/ TRefreshEnd \/ TQuery
+TraceNext == TReset \/ TSetHealth \/ TTick \/ TRefreshStart \/ TProbe \/ TRefreshEnd \/ TQuery \/ TExchange
 TraceSpec == TraceInit /\ [][TraceNext]_vars
 \* outside a refresh exactly the upstreams whose last probe succeeded are active
 ActiveIffProbedOK == (pc = 0 /\ fall # {} /\ l > 1) => active = {u \in MainSet : fail[u] = -1}
